@@ -476,3 +476,36 @@ theorem pairs_in_source_order (ps : List PairE) (env : Nat) (acc res : List (Str
   ⟨fun ⟨f, hf⟩ => seq_of_pairs ps f acc res s s' hf, pairs_of_seq⟩
 
 end Pangaea.C08
+
+namespace Pangaea.C08
+open Pangaea.Core Pangaea.C07
+
+/-- **Positional arguments are evaluated once each, in the order written**, `*e` contributing the elements of its
+    array and `**e` the pairs of its object (first occurrence of a name wins): whenever the sequential specification
+    `C07.ArgsOk` holds, `evalArgs` computes exactly its result and final state. -/
+theorem args_in_order_written {env : Nat} {es : List Expr} {acc acc2 : List Val} {kw kw2 : List (String × Val)} {s s2 : St}
+    (h : ArgsOk env es acc kw s acc2 kw2 s2) : ∃ fuel, evalArgs fuel es env acc kw s = (.ok (acc2, kw2), s2) := by
+  induction h with
+  | nil acc kw s => exact ⟨1, by simp [evalArgs, pureM]⟩
+  | @plain e rest acc acc2 kw kw2 s s1 s2 v hp hv _ ih =>
+    obtain ⟨f, hf⟩ := hv
+    obtain ⟨g, hg⟩ := ih
+    have h1 := evalE_lift hf (by simp [R.notFuel]) (Nat.le_max_left f g)
+    have h2 := evalArgs_lift hg (by simp [R.notFuel]) (Nat.le_max_right f g)
+    refine ⟨max f g + 1, ?_⟩
+    rw [evalArgs.eq_5 _ _ _ _ _ _ (fun e' he => (hp e').2 he) (fun e' he => (hp e').1 he)]
+    simp [bindM, h1, h2]
+  | @arr e rest acc acc2 kw kw2 s s1 s2 xs hv _ ih =>
+    obtain ⟨f, hf⟩ := hv
+    obtain ⟨g, hg⟩ := ih
+    have h1 := evalE_lift hf (by simp [R.notFuel]) (Nat.le_max_left f g)
+    have h2 := evalArgs_lift hg (by simp [R.notFuel]) (Nat.le_max_right f g)
+    exact ⟨max f g + 1, by rw [evalArgs.eq_4]; simp [bindM, h1, h2]⟩
+  | @obj e rest acc acc2 kw kw2 s s1 s2 ps hv _ ih =>
+    obtain ⟨f, hf⟩ := hv
+    obtain ⟨g, hg⟩ := ih
+    have h1 := evalE_lift hf (by simp [R.notFuel]) (Nat.le_max_left f g)
+    have h2 := evalArgs_lift hg (by simp [R.notFuel]) (Nat.le_max_right f g)
+    exact ⟨max f g + 1, by rw [evalArgs]; simp [bindM, h1, h2]⟩
+
+end Pangaea.C08
